@@ -1,0 +1,31 @@
+//! Read-only state accessors for the external verification harness.
+//!
+//! Only compiled with `--cfg coap_lite_verif`; nothing here mutates state.
+
+use core::fmt::Display;
+
+use super::{Observer, Subject};
+
+impl<Endpoint: Display> Observer<Endpoint> {
+    /// Number of confirmable notifications not yet acknowledged.
+    pub fn verif_unacknowledged(&self) -> u64 {
+        self.unacknowledged_messages as u64
+    }
+
+    /// Message id of the notification an acknowledgement is awaited for.
+    pub fn verif_pending_message_id(&self) -> Option<u16> {
+        self.message_id
+    }
+}
+
+impl<Endpoint: Display + PartialEq> Subject<Endpoint> {
+    /// Paths of all resource entries, in map order.
+    pub fn verif_resource_paths(&self) -> alloc::vec::Vec<alloc::string::String> {
+        self.resources.keys().cloned().collect()
+    }
+
+    /// The configured limit of unacknowledged notifications.
+    pub fn verif_unacknowledged_limit(&self) -> u64 {
+        self.unacknowledged_limit as u64
+    }
+}
